@@ -116,7 +116,7 @@ func alinIllTyped(g *hx.Gen) {
 		}
 	}
 	// random: a legal random case with letters replaced by illegal ones at random places
-	n := g.Scale(600, 20000)
+	n := g.Scale(3000, 20000)
 	for k := 0; k < n && !g.Done(); k++ {
 		f := hx.Fields(alinRandomCase(g, 40))
 		for _, idx := range []int{3, 4} {
@@ -138,9 +138,9 @@ func alinIllTyped(g *hx.Gen) {
 func c09linGen(g *hx.Gen) {
 	alinIllTyped(g)
 	// the well-typed inputs of C08: exhaustive small part and random pairs
-	alinExhaustive(g, "-ab", g.Scale(3, 4), g.Scale(2, 1))
-	alinExhaustive(g, "-abc", 3, g.Scale(5, 1))
-	n := g.Scale(800, 30000)
+	alinExhaustive(g, "-ab", g.Scale(3, 4), 1)
+	alinExhaustive(g, "-abc", 3, g.Scale(2, 1))
+	n := g.Scale(3000, 30000)
 	for k := 0; k < n && !g.Done(); k++ {
 		def := []string{"-ab", "-abc"}[g.Intn(2)]
 		m := alinRandMatrix(g, len(def))
@@ -148,7 +148,7 @@ func c09linGen(g *hx.Gen) {
 		q := g.Letters(def[1:], g.Range(1, 6))
 		g.Casef("%s %s %s %s %s LL", alinOps[g.Intn(3)], alinAlphaTok(def, true, '-'), alinMatrixTok(m), hx.Hex(r), hx.Hex(q))
 	}
-	n = g.Scale(1200, 60000)
+	n = g.Scale(4000, 60000)
 	for k := 0; k < n && !g.Done(); k++ {
 		g.Case(alinRandomCase(g, g.Scale(120, 200)))
 	}
